@@ -318,6 +318,19 @@ func run(kind string, roots []rootDesc, foreign []foreignDesc, ops []opDesc) (ca
 	}
 	for k := range ops {
 		o := &ops[k]
+		o.Res = -1
+		// the generator predicts which operations allocate; when the implementation allocates
+		// differently a later operation may name a value that does not exist: it is skipped and
+		// shows up as an unexpected result
+		if (o.Recv.K == "cell" || o.Recv.K == "emb") && o.Recv.I >= len(w.cells) ||
+			(o.Err.K == "cell" || o.Err.K == "emb") && o.Err.I >= len(w.cells) {
+			c.Note += fmt.Sprintf("op %d names a value that does not exist; ", k)
+			continue
+		}
+		if o.Err.K == "foreign" && w.descs[o.Err.I].Kind == "wrapg" && w.descs[o.Err.I].Cell >= len(w.cells) {
+			c.Note += fmt.Sprintf("op %d wraps a value that does not exist; ", k)
+			continue
+		}
 		err := w.errOf(o.Err)
 		o.Orig = fmt.Sprintf("originalError: %+v", err)
 		var res gerror.Error
@@ -333,7 +346,6 @@ func run(kind string, roots []rootDesc, foreign []foreignDesc, ops []opDesc) (ca
 				res = apply(w.factoryOf(o.Recv), o.M, o, err)
 			}
 		}()
-		o.Res = -1
 		if res == nil {
 			continue
 		}
@@ -350,6 +362,10 @@ func run(kind string, roots []rootDesc, foreign []foreignDesc, ops []opDesc) (ca
 	}
 	c.NCells = len(w.cells)
 	for k := range foreign { // those no Convert has used
+		if foreign[k].Kind == "wrapg" && foreign[k].Cell >= len(w.cells) {
+			foreign[k].Cell = 0 // keeps the case well formed; the divergence is reported through the results
+			w.descs = foreign
+		}
 		w.ensure(k)
 	}
 	vals := make([]error, 0, len(w.cells)+len(c.Embs)+len(w.foreign)+1)
